@@ -331,6 +331,60 @@ def api_default_td(rec, seed):
                         break
 
 
+def api_two_extra_dims(rec, seed, only=None):
+    """data and target_data with two extra dimensions of equal length, each stored in every dimension order: columns are
+    matched by dimension *name*, whatever the orders (and the chunking of the extra dimensions) are"""
+    from xgcm import Grid
+
+    nz = 3
+    ds = xr.Dataset(coords={"zc": ("zc", np.arange(nz) + 0.5), "zo": ("zo", np.arange(nz + 1.0)), "x": ("x", [0, 1]), "y": ("y", [0, 1])})
+    with warnings.catch_warnings():
+        warnings.simplefilter("ignore")
+        g = Grid(ds, coords={"Z": {"center": "zc", "outer": "zo"}}, periodic=False, autoparse_metadata=False)
+    profs = {(0, 0): (0, 1, 2), (0, 1): (5, 3, 0), (1, 0): (1, 2, 5), (1, 1): (0, 4, 5)}  # [(x, y)]
+    phi = np.arange(12.0).reshape(2, 2, 3) ** 2 - 7 * (seed % 3 + 1)
+    levels = (0.5, 1.0, 2.5, 3.5, 4.0, 5.0)
+    thv = np.array([[profs[(i, j)] for j in range(2)] for i in range(2)], dtype=float)
+    orders = list(itertools.permutations(("x", "y", "zc")))
+    for do in orders:
+        for to_ in orders:
+            for method in ("linear", "log"):
+                for chunk in (None, {"x": 1}, {"y": 1}):
+                    for mask in (True, False):
+                        case = dict(level="api-2d", data_dims=list(do), target_data_dims=list(to_), method=method, chunk=chunk, mask=mask)
+                        if only is not None and only != case:
+                            continue
+                        da = xr.DataArray(phi, dims=["x", "y", "zc"], name="temp").transpose(*do)
+                        td = xr.DataArray(2.0 ** thv if method == "log" else thv, dims=["x", "y", "zc"], name="dens").transpose(*to_)
+                        lv = np.array(levels)
+                        if chunk:
+                            da, td = da.chunk(chunk), td.chunk(chunk)
+                        rec.case(("api-2d", do, to_, method, str(chunk), mask), True, sample=case)
+                        try:
+                            with warnings.catch_warnings():
+                                warnings.simplefilter("ignore")
+                                r = g.transform(da, "Z", 2.0 ** lv if method == "log" else lv, target_data=td, method=method, mask_edges=mask)
+                                r = r.compute()
+                        except Exception as e:
+                            rec.violation("api", "two-extra-dims-raise:" + exc_sig(e), case, "array", f"{type(e).__name__}: {e}"[:200])
+                            continue
+                        if set(r.dims) != {"x", "y", "dens"}:
+                            rec.violation("api", "two-extra-dims:dims", case, ["x", "y", "dens"], list(r.dims))
+                            continue
+                        got = r.transpose("x", "y", "dens").values
+                        bad = False
+                        for (i, j), pr in profs.items():
+                            for k, l in enumerate(levels):
+                                w = R.interp_linear(pr, l, mask)
+                                e = np.nan if w is None else float(sum(float(x) * p_ for x, p_ in zip(w, phi[i, j])))
+                                if not np.isclose(got[i, j, k], e, equal_nan=True, rtol=1e-9, atol=1e-9):
+                                    rec.violation("api", "two-extra-dims:values", dict(case, column=[i, j], k=k), e, float(got[i, j, k]))
+                                    bad = True
+                                    break
+                            if bad:
+                                break
+
+
 def api_cases(tier):
     out = []
     k = 0
@@ -365,6 +419,7 @@ def shards(tier, seed):
     ac = api_cases(tier)
     sh += [("api", lo, min(lo + 50, len(ac))) for lo in range(0, len(ac), 50)]
     sh.append(("default",))
+    sh.append(("2d",))
     sh += [("lognp", n) for n in BOUNDS[tier]["n"]]
     return sh
 
@@ -387,6 +442,8 @@ def run_shard(shard, tier, seed, rec):
         _API_GRID.clear()
         for c in api_cases(tier)[shard[1]: shard[2]]:
             api_case(rec, *c[:8], seed, prec=c[8])
+    elif shard[0] == "2d":
+        api_two_extra_dims(rec, seed)
     else:
         api_default_td(rec, seed)
 
@@ -404,6 +461,8 @@ def replay_case(case, seed, rec):
         rec.MAXVIOL = 10 ** 6
         kernel_case(rec, case["n"], tuple(case["levels"]), case["mask"], case["bypass"], case["log"], seed, aff=case.get("aff", 0))
         rec.viol = [v for v in rec.viol if v["case"].get("profile") == case["profile"]]
+    elif case["level"] == "api-2d":
+        api_two_extra_dims(rec, seed, only={k: v for k, v in case.items() if k not in ("column", "k")})
     elif case["level"] == "api":
         _API_GRID.clear()
         api_case(rec, case["ci"], case["li"], case["tkind"], case["suffix"], case["mask"], case["method"], case["layout"], case["chunk"], seed, prec=case.get("prec", "f8"))
